@@ -35,7 +35,12 @@ CLAIMED = {
         "collection the raw, simplified, lowered, fused and pinned forms are executed by the driver's own scheduler and compared by "
         "TLC with each other and with the TLC-computed denotation; every _simplify_down/_simplify_up/_lower hook that fires is "
         "recorded with the expressions before/after, both evaluated from their own un-optimized graphs, and TLC checks equal shape, "
-        "dtype and values; for fused trees the input blocks reached per output block must equal those of the un-fused graph.",
+        "dtype and values; for fused trees the input blocks reached per output block must equal those of the un-fused graph. "
+        "Design level: Rewrites.tla states seven named pushdown / fusion rules over a term language and TLC checks on every term of "
+        "depth <= 2 that each enabled rule instance preserves the denotation (wrong-axis variants are refuted). Directed families "
+        "added after seeded changes: operands on different grids ; elemwise ; take / slice / rechunk ; a grid-DEPENDENT per-block "
+        "function (placeholder denotation: every form must agree with the raw form), and 'diamonds' (one fusable node reached "
+        "through two differently transposed paths, all 216 triples of 3-D permutations).",
         "A phase that raises where the raw form computes is reported by C08 (accepted here). Binding negative control: corrupted "
         "observations must all be rejected by TLC. Trusted: harness/obs_programs.py, harness/record.py (wrappers), NdArray.tla.",
         "DESIGN.md §4 C02, §9",
@@ -46,7 +51,8 @@ CLAIMED = {
         "Exhaustive within bounds (same corpora as C02): the advertised shape/chunks/dtype are read before any graph exists, the "
         "pinned graph is executed key by key, and TLC checks that there is exactly one block per index of the advertised grid, each "
         "with the advertised per-axis size and dtype, and that the assembled result has the advertised shape and dtype (unknown "
-        "sizes only fix the number of blocks).",
+        "sizes only fix the number of blocks). Directed family: balanced rechunk ; explicit rechunk ; map_blocks with a "
+        "declared chunks= (the declaration is frozen against the advertised grid).",
         "Collections whose graph cannot be built or executed are C08's / C01's subject (counted, not judged).",
         "DESIGN.md §4 C03, §9",
     ),
@@ -56,7 +62,8 @@ CLAIMED = {
         "Exhaustive within bounds (same corpora): for every collection, `__dask_keys__()` and `__dask_graph__()` are exported into "
         "the vocabulary of TaskGraph.tla and TLC checks: every dependency defined (closed), every task can run (acyclic: least "
         "fixpoint of runnable tasks = all tasks), every advertised key defined, keys = (collection name) x (advertised block grid) "
-        "in C order, name unchanged by building the graph.",
+        "in C order, name unchanged by building the graph. Includes the 'diamond' family (a fusable node under two transposed "
+        "paths, creation and from_array sources, every triple of 3-D permutations).",
         "Binding negative control: graphs with an injected dangling dependency, cycle, renamed or shifted key must all be rejected.",
         "DESIGN.md §4 C04, §9",
     ),
@@ -78,7 +85,8 @@ CLAIMED = {
         "histories of TLC-enumerated programs replayed, every re-observed node name / graph key validated by TLC (Naming.MintVerdict)",
         "Per worker process one history of consecutive enumerated behaviours (neighbours differ minimally: same source under every "
         "chunk grid, same operation with other parameters, random arrays with equal seeds and different layouts, rechunk specs, "
-        "persisted graphs, sliding-window reductions).  For every collection every expression node of the raw / simplified / lowered "
+        "persisted graphs, sliding-window reductions, creation arrays with USER-PINNED names under every absorbed operation, slice / "
+        "rechunk chains of depth 3).  For every collection every expression node of the raw / simplified / lowered "
         "/ fused trees (shape, chunks, dtype) and every key of the raw and of the pinned graph (block shape, dtype, value "
         "fingerprint) is registered; a name or key seen before in the process is emitted together with its earlier descriptor and "
         "TLC rejects any difference.",
@@ -102,7 +110,8 @@ CLAIMED = {
         "Exhaustive within bounds (same corpora): every collection whose raw graph computes is simplified and lowered pass by pass "
         "(root name after every simplify_once / lower_once), fused, and optimized / simplified / lowered a second time. TLC checks "
         "that no stage raises, the pass sequence never returns to a name it left and ends within the pass budget, the second "
-        "optimization keeps the name, and the optimized graph executes.",
+        "optimization keeps the name, and the optimized graph executes. Includes the 'diamond' family (conflicting block mappings "
+        "in blockwise fusion).",
         "Known finding F10 (a second optimize() simplifies slice nodes created by lowering next to pad/roll concatenates) is reported "
         "as KNOWN-FINDING. Fixed: reshape_rechunk IndexError (fix: commit c10f59b).",
         "DESIGN.md §4 C08, §9",
@@ -127,7 +136,7 @@ CLAIMED = {
         "executions of merged graphs of TLC-enumerated programs in several topological orders validated by TLC (TaskGraph.RunVerdict)",
         "Model level (exhaustive): every schedule of the constant graphs; if every Exec only adds its own key, all schedules end in the "
         "same store.  Code level: for every enumerated behaviour (corpora incl. sliding-window kernels and setitem / mask / out= "
-        "histories) the graphs of all live collections are merged into one graph, exported and executed by the driver's scheduler in "
+        "histories, np.pad-style callables that edit their vector in place) the graphs of all live collections are merged into one graph, exported and executed by the driver's scheduler in "
         "LIFO, FIFO, max-id, min-id and seeded random topological orders; every live value and the user's source arrays are "
         "fingerprinted before and after every task.  TLC validates each execution as a behaviour of the machine: tasks enabled when "
         "run, no live value changed by any task, results equal to the first order's, outputs produced, sources unchanged.",
@@ -156,7 +165,8 @@ CLAIMED = {
         "Exhaustive within bounds: every basic index of the 1-D sources (n <= 5: start, stop in None + [-n-2, n+2], step in None, "
         "+-1, +-2, +-3 in the thorough tier; every integer in [-n-1, n]; None inserted), lean index tuples in 2-D / 3-D, integer "
         "lists with negatives / repeats / out-of-bounds, all 2^n boolean masks along an axis up to n = 4 (NumPy and dask masks), "
-        "dask integer arrays, pointwise .vindex, Ellipsis, and a second index on the result of a first operation (incl. results "
+        "dask integer arrays, pointwise .vindex, Ellipsis, every placement of two or three None entries among slices and integers "
+        "(1-D to 3-D), and a second index on the result of a first operation (incl. results "
         "with unknown chunk sizes); `.blocks[...]` with integers, slices and lists over every chunk grid (non-empty selections). "
         "A valid index must compute the TLC-computed denotation under every chunk grid (or be declined with NotImplementedError), "
         "an index NumPy rejects must raise.",
@@ -186,7 +196,9 @@ CLAIMED = {
         "slice/rechunk chains of depth 3.  TLC checks that the advertised chunks are a chunking of the shape, equal what "
         "normalize_chunks gives for the same arguments, and equal the requested layout axis by axis (uniform size with a smaller "
         "last block, whole axis, previous chunks); with balance=True: a chunking with no more blocks than requested.  The rechunked "
-        "collection and its consumers are executed: block sizes = advertised chunks, values in every phase = the denotation.",
+        "collection and its consumers are executed: block sizes = advertised chunks, values in every phase = the denotation. Joint "
+        "observation: programs of one process that read the same source with the same rechunks and differ in the window they take "
+        "are computed TOGETHER in one graph (dask.compute(a, b)); each must keep the value it has alone (Collection.JointVerdict).",
         "Unknown (nan) sizes along unchanged axes are not generated. False alarm corrected: a 'balanced result has no larger "
         "spread' clause demanded more than the property states and was removed.",
         "DESIGN.md §4 C14, §9",
@@ -197,7 +209,8 @@ CLAIMED = {
         "Model level (exhaustive): 10 reduction kinds x every input of length <= 5 over {0, 1, 3, NaN} x every chunking x every tree: "
         "the partials always determine the flat reduction.  Code level: every reduction (sum, prod, min, max, any, all, mean, var, "
         "nansum, nanmin, nanmax, nanmean, argmin, argmax with and without axis, count_nonzero, ptp, topk) x axis subsets x keepdims "
-        "x split_every in {default, 2, 3, {0:2, 1:3}} over int / bool / NaN-carrying sources (5), (7), (3,4), (2,3,2), replayed "
+        "(and nanargmin / nanargmax) x split_every in {default, 2, 3, {0:2, 1:3}} over int / bool / two NaN-carrying source kinds (regular "
+        "and mostly-NaN irregular: blocks with all-NaN lanes next to partly-NaN lanes) (5), (7), (3,4), (2,3,2), replayed "
         "under the chunk grids of the source (all 64 grids of the 7-element source, i.e. trees three levels deep), plus reduction ; "
         "slice and (slice | rechunk | transpose | elemwise) ; reduction compositions.",
         "Known finding F15 (argmax(axis=None) ties in block order) is reported as KNOWN-FINDING; F14 was repaired (fix: 4d53064). "
